@@ -63,6 +63,7 @@ class C16(Check):
         "generator object with arbitrary use in between give identical record multisets (per patch for given centres), "
         "workers 4 == workers 1, and chi^2 (equal-area 6x6 cells) / KS (alpha, sin delta) uniformity at p < 1e-9. "
         "non-trivial = >= 2 chunks or >= 50 points; distinct = case parameters"
+        ' Further classes: zero weights, reseed() after construction, generate-mode vs centres-mode points, attribute samples as pandas Series, patch-like parent directories.'
     )
     assumptions = [
         "uniformity is a statistical verdict: false-alarm probability ~1e-9 per test, deterministic per seed",
